@@ -40,7 +40,9 @@ EXPLANATION = (
     ' '
     "R-C09.5 classifies the walk's sets on the CFG within one iteration: the in-progress set is the one marked before the dependencies are scanned."
     ' '
-    'R-C09.13 = R-C08.5.')
+    'R-C09.13 = R-C08.5.'
+    ' '
+    'R-C09.14 MoveToDjangoMigrations.generate_dependencies builds after_migrations from the whole of self.mark_applied (no slice, subscript, filter or early exit).')
 NOT_DECIDED = (
     'Correctness of the topological sort on all graphs, and the behaviour '
     'of Django\'s own migration planner.')
@@ -944,7 +946,56 @@ def r13_batch_sql_from_batch_labels(ctx):
     r5_batch_labels(ctx, rule_id='R-C09.13')
 
 
+def r14_hand_over_depends_on_every_marked_migration(ctx):
+    """MoveToDjangoMigrations marks a set of migrations as applied; the
+    evolution carrying it must be ordered after *each* of them (they need
+    not form a chain - two branches off 0001 are both marked), which is what
+    the implied after_migrations dependency says.  Every generator / loop in
+    generate_dependencies that reads self.mark_applied must iterate the
+    whole collection: no subscript or slice, no filter, no early exit."""
+    ctx.rule('R-C09.14')
+    p = ctx.program
+    f = p.func('mutations.move_to_django_migrations',
+               'MoveToDjangoMigrations.generate_dependencies')
+    from ..util import expand_expr
+    n = 0
+
+    def whole(it):
+        e = expand_expr(f, it)
+        while isinstance(e, ast.Call) and len(e.args) == 1 and \
+                not e.keywords and (call_name(e) or '') in (
+                    'sorted', 'list', 'tuple', 'set', 'frozenset', 'iter'):
+            e = e.args[0]
+        return is_self_attr(e, 'mark_applied'), e
+    for x in ast.walk(f.node):
+        gens = []
+        if isinstance(x, (ast.GeneratorExp, ast.ListComp, ast.SetComp,
+                          ast.DictComp)):
+            gens = [(g_.iter, g_.ifs) for g_ in x.generators]
+        elif isinstance(x, ast.For):
+            gens = [(x.iter, [b for b in ast.walk(x)
+                              if isinstance(b, (ast.Break, ast.Return))])]
+        for it, restr in gens:
+            if 'mark_applied' not in unparse(expand_expr(f, it)):
+                continue
+            n += 1
+            ok, e = whole(it)
+            if ok and not restr:
+                ctx.ok(f, 'after_migrations names every marked migration',
+                       it)
+            else:
+                ctx.finding(f, it, 'the implied after_migrations dependency '
+                            'is built from part of mark_applied (%s%s): the '
+                            'evolution may be ordered before a pending '
+                            'migration it marks as applied' % (
+                                ' '.join(unparse(it).split()),
+                                ', filtered' if restr else ''),
+                            key='after-migrations-partial')
+    ctx.floor('iterations over mark_applied in generate_dependencies', n, 1)
+
+
 def run(ctx):
+    r14_hand_over_depends_on_every_marked_migration(ctx)
     r13_batch_sql_from_batch_labels(ctx)
     r12_declared_requirements_registered_unconditionally(ctx)
     r11_dependency_kinds_registered_independently(ctx)
